@@ -108,8 +108,9 @@ type LPlan struct {
 	Cfg       LCfg        `json:"cfg"`
 	Endpoints []LEndpoint `json:"endpoints"`
 	Backoffs  []LBackoff  `json:"backoffs,omitempty"`
-	Calls     int         `json:"calls,omitempty"`   // Sign calls on the same Signer value (0 means 1)
-	GapSec    int         `json:"gap_sec,omitempty"` // simulated pause between them
+	Calls     int         `json:"calls,omitempty"`     // Sign calls on the same Signer value (0 means 1)
+	ReqShape  string      `json:"req_shape,omitempty"` // unusual but legal values in the signing request (see sampleRequest)
+	GapSec    int         `json:"gap_sec,omitempty"`   // simulated pause between them
 }
 
 const port = 4443
@@ -483,7 +484,7 @@ func tlsVersions(max string) (uint16, uint16) {
 	return tls.VersionTLS10, tls.VersionTLS13
 }
 
-func (n *network) startEndpoint(i int, e *LEndpoint, clientCA *ca, clientChain bool) *epState {
+func (n *network) startEndpoint(i int, e *LEndpoint, clientCA *ca, clientChain bool, firstHost string) *epState {
 	host := hostOf(e.Name)
 	now := time.Now()
 	var cert tls.Certificate
@@ -494,6 +495,9 @@ func (n *network) startEndpoint(i int, e *LEndpoint, clientCA *ca, clientChain b
 		cert = issue(issuer, label, []string{host}, now.Add(-24*time.Hour), now.Add(365*24*time.Hour), false)
 	case "other_ca":
 		cert = issue(newCA("foreign-ca"), label, []string{host}, now.Add(-24*time.Hour), now.Add(365*24*time.Hour), false)
+	case "named_as_first":
+		// a CA-issued certificate that names the FIRST endpoint of the list, presented by a later endpoint
+		cert = issue(issuer, label, []string{firstHost}, now.Add(-24*time.Hour), now.Add(365*24*time.Hour), false)
 	case "client_ca":
 		// issued by the CA that issued the RA's own client certificate: a CA of the deployment, but not one of
 		// the configured server CA certificates
@@ -545,13 +549,36 @@ func (n *network) startEndpoint(i int, e *LEndpoint, clientCA *ca, clientChain b
 
 // ---- execution ---------------------------------------------------------------
 
-func sampleRequest() *pb.SSHCertificateSigningRequest {
-	return &pb.SSHCertificateSigningRequest{
+// sampleRequest builds the signing request of a plan; shape selects unusual but legal field values (the request
+// must reach the CA exactly as given).
+func sampleRequest(shape string) *pb.SSHCertificateSigningRequest {
+	req := &pb.SSHCertificateSigningRequest{
 		KeyMeta: &pb.KeyMeta{Identifier: "ssh-user-key"}, Principals: []string{"alice"}, Validity: 43200,
 		KeyId:      `{"prins":["alice"],"transID":"0123456789","ver":1}`,
 		Extensions: map[string]string{"permit-pty": "", "permit-agent-forwarding": ""},
 		PublicKey:  string(ssh.MarshalAuthorizedKey(keys.Pub(keys.KindEd, "l-user"))),
 	}
+	switch shape {
+	case "dup_principals":
+		req.Principals = []string{"alice", "bob", "alice"}
+	case "spaced_principals":
+		req.Principals = []string{" alice", "bob ", "car ol"}
+	case "empty_principal":
+		req.Principals = []string{"alice", ""}
+	case "no_principals":
+		req.Principals = nil
+	case "unsorted_principals":
+		req.Principals = []string{"zoe", "alice", "Mallory", "bob"}
+	case "odd_fields":
+		req.KeyId = " {\"prins\":[\"alice\"]}\n"
+		req.Validity = 0
+		req.Extensions = map[string]string{}
+		req.KeyMeta = &pb.KeyMeta{Identifier: " key id with spaces "}
+		req.PublicKey = strings.TrimRight(req.PublicKey, "\n") + " a comment\n"
+	case "critical_options":
+		req.CriticalOptions = map[string]string{"force-command": "/bin/true", "source-address": "10.0.0.0/8, 192.168.0.1"}
+	}
+	return req
 }
 
 func execL(t *testing.T, raw json.RawMessage) *sim.Outcome {
@@ -575,7 +602,7 @@ func execL(t *testing.T, raw json.RawMessage) *sim.Outcome {
 		checkBackoffs(t, o, &p)
 		return o
 	}
-	n := &network{eps: map[string]*epState{}, o: o, req: sampleRequest(), client: ent.clientDER}
+	n := &network{eps: map[string]*epState{}, o: o, req: sampleRequest(p.ReqShape), client: ent.clientDER}
 	type callRec struct {
 		certs      []ssh.PublicKey
 		comments   []string
@@ -594,7 +621,7 @@ func execL(t *testing.T, raw json.RawMessage) *sim.Outcome {
 		clientCA := newCA("client-ca")
 		var eps []*epState
 		for i := range p.Endpoints {
-			eps = append(eps, n.startEndpoint(i, &p.Endpoints[i], clientCA, p.Cfg.ClientChain))
+			eps = append(eps, n.startEndpoint(i, &p.Endpoints[i], clientCA, p.Cfg.ClientChain, hostOf(p.Endpoints[0].Name)))
 		}
 		if p.Cfg.SiblingDials && ent.sibling != nil {
 			for i, e := range p.Endpoints {
